@@ -162,18 +162,18 @@ Section Region.
     end.
 
   (** sub-sampling, image data already in the file: per pixel Hseek + Hwrite *)
-  Fixpoint strided_row_ops (n loff sadd : nat) (tmp : list P) : list wop * list P :=
+  Fixpoint strided_row_ops (n loff sadd one : nat) (tmp : list P) : list wop * list P :=
     match n with
     | 0 => ([], tmp)
-    | S n' => let '(ops, t) := strided_row_ops n' (loff + sadd) sadd (skipn 1 tmp) in
-              (WSeek loff :: WWrite (firstn 1 tmp) :: ops, t)
+    | S n' => let '(ops, t) := strided_row_ops n' (loff + sadd) sadd one (skipn one tmp) in
+              (WSeek loff :: WWrite (firstn one tmp) :: ops, t)
     end.
 
-  Fixpoint strided_seek_ops (n cxn off srowadd sadd : nat) (tmp : list P) : list wop :=
+  Fixpoint strided_seek_ops (n cxn off srowadd sadd one : nat) (tmp : list P) : list wop :=
     match n with
     | 0 => []
-    | S n' => let '(ops, t) := strided_row_ops cxn off sadd tmp in
-              ops ++ strided_seek_ops n' cxn (off + srowadd) srowadd sadd t
+    | S n' => let '(ops, t) := strided_row_ops cxn off sadd one tmp in
+              ops ++ strided_seek_ops n' cxn (off + srowadd) srowadd sadd one t
     end.
 
   (** first write of a new image: everything is written sequentially, surrounded by fill pixels taken
@@ -191,20 +191,20 @@ Section Region.
                      ++ solid_fill_rows n' plen hl fl (skipn plen tmp)
     end.
 
-  Fixpoint strided_fill_px (n gap : nat) (fx : bool) (fl tmp : list P) : list wop * list P :=
+  Fixpoint strided_fill_px (n gap one : nat) (fx : bool) (fl tmp : list P) : list wop * list P :=
     match n with
     | 0 => ([], tmp)
-    | S n' => let '(ops, t) := strided_fill_px n' gap fx fl (skipn 1 tmp) in
-              (WWrite (firstn 1 tmp) :: opt_w (fx && (0 <? n')) (wfill fl gap) ++ ops, t)
+    | S n' => let '(ops, t) := strided_fill_px n' gap one fx fl (skipn one tmp) in
+              (WWrite (firstn one tmp) :: opt_w (fx && (0 <? n')) (wfill fl gap) ++ ops, t)
     end.
 
-  Fixpoint strided_fill_rows (n cxn gap : nat) (fx fy : bool) (tyn lsz hl : nat) (fl tmp : list P) : list wop :=
+  Fixpoint strided_fill_rows (n cxn gap one : nat) (fx fy : bool) (tyn lsz hl : nat) (fl tmp : list P) : list wop :=
     match n with
     | 0 => []
-    | S n' => let '(ops, t) := strided_fill_px cxn gap fx fl tmp in
+    | S n' => let '(ops, t) := strided_fill_px cxn gap one fx fl tmp in
               ops ++ (if fy && (0 <? n') then fill_lines fl lsz (tyn - 1) else [])
                   ++ opt_w ((0 <? hl) && (0 <? n')) (wfill fl hl)
-                  ++ strided_fill_rows n' cxn gap fx fy tyn lsz hl fl t
+                  ++ strided_fill_rows n' cxn gap one fx fy tyn lsz hl fl t
     end.
 
   (** The calls of GRwriteimage on the image element.  [psz] is the pixel size the regenerated
@@ -227,13 +227,13 @@ Section Region.
       else
         if newfill then
           fill_lines fl lsz (r_sy r) ++ opt_w (0 <? lo) (wfill fl lo)
-            ++ strided_fill_rows (r_cy r) (r_cx r) (G wr_fill_stride_size xdim ydim psz r)
+            ++ strided_fill_rows (r_cy r) (r_cx r) (G wr_fill_stride_size xdim ydim psz r) psz
                                  (1 <? r_tx r) (1 <? r_ty r) (r_ty r) lsz (hi + lo) fl data
             ++ opt_w (0 <? hi) (wfill fl hi)
             ++ fill_lines fl lsz (G wr_trail_to_1 xdim ydim psz r - G wr_trail_from_1 xdim ydim psz r)
         else
           strided_seek_ops (r_cy r) (r_cx r) (G wr_img_offset xdim ydim psz r)
-                           (G wr_srow_add xdim ydim psz r) (G wr_stride_add xdim ydim psz r) data.
+                           (G wr_srow_add xdim ydim psz r) (G wr_stride_add xdim ydim psz r) psz data.
 
   (** GRwriteimage on the pixel stream: [e] = None when no image data is in the file yet. *)
   Definition gr_write_px (e : option (list P)) (xdim ydim : nat) (r : rgn) (fillpx : P) (data : list P) : list P :=
